@@ -32,7 +32,11 @@ type c05Case struct {
 
 var sevNames = []string{"info", "warning", "bug", "fatal"}
 
-func c05RandBase(r *rand.Rand) c05Base {
+// c05RandBase builds one (rule files, config) base. scenario selects a stratum so that
+// every threshold situation occurs: 0 general, 1..3 all problems capped at info / warning /
+// bug (built-in checks silenced, no injected errors), 4/5 the same check text reported at
+// two severities on two paths with the higher one being the only problem at the top.
+func c05RandBase(r *rand.Rand, scenario int) c05Base {
 	b := c05Base{Files: map[string]string{}}
 	o := gen.DefaultGenOpts()
 	o.Comments = false
@@ -40,23 +44,35 @@ func c05RandBase(r *rand.Rand) c05Base {
 	o.MultiLine = false
 	nf := 2 + r.Intn(2)
 	names := []string{"rules/a_staging.yml", "rules/b_prod.yml", "rules/c_misc.yml"}
+	capSev := 3 // index into sevNames of the highest severity allowed
+	switch scenario {
+	case 1:
+		capSev = 0
+	case 2:
+		capSev = 1
+	case 3:
+		capSev = 2
+	case 4, 5:
+		capSev = r.Intn(3) // everything but the twin stays at or below this
+	}
 	for i := 0; i < nf; i++ {
 		d := gen.RandDoc(r, o)
-		// sprinkle specific problem sources
-		for gi := range d.Groups {
-			for ri := range d.Groups[gi].Rules {
-				rule := &d.Groups[gi].Rules[ri]
-				switch r.Intn(12) {
-				case 0: // template error -> Fatal
-					sc := gen.Scalar{Lines: []string{"{{ $nosuch }}"}, Style: gen.Single}
-					rule.Fields = append(rule.Fields, gen.Field{Key: "annotations", Map: []gen.KV{{Key: "broken", Val: sc}}})
-				case 1: // unknown key -> parse error (Fatal)
-					rule.Fields = append(rule.Fields, gen.Field{Key: "bogus", Raw: " 1"})
-				case 2: // syntax error
-					for fi := range rule.Fields {
-						if rule.Fields[fi].Key == "expr" {
-							sc := gen.Scalar{Lines: []string{"sum(foo) by("}, Style: gen.Single}
-							rule.Fields[fi].Val = &sc
+		if scenario == 0 {
+			for gi := range d.Groups {
+				for ri := range d.Groups[gi].Rules {
+					rule := &d.Groups[gi].Rules[ri]
+					switch r.Intn(12) {
+					case 0: // template error -> Fatal
+						sc := gen.Scalar{Lines: []string{"{{ $nosuch }}"}, Style: gen.Single}
+						rule.Fields = append(rule.Fields, gen.Field{Key: "annotations", Map: []gen.KV{{Key: "broken", Val: sc}}})
+					case 1: // unknown key -> parse error (Fatal)
+						rule.Fields = append(rule.Fields, gen.Field{Key: "bogus", Raw: " 1"})
+					case 2: // syntax error
+						for fi := range rule.Fields {
+							if rule.Fields[fi].Key == "expr" {
+								sc := gen.Scalar{Lines: []string{"sum(foo) by("}, Style: gen.Single}
+								rule.Fields[fi].Val = &sc
+							}
 						}
 					}
 				}
@@ -64,26 +80,21 @@ func c05RandBase(r *rand.Rand) c05Base {
 		}
 		b.Files[names[i]] = d.Render().Text
 	}
-	// a palette of severities: sometimes only low ones, sometimes all
-	var palette []string
-	switch r.Intn(6) {
-	case 0:
-		palette = []string{"info"}
-	case 1:
-		palette = []string{"info", "warning"}
-	case 2:
-		palette = []string{"warning"}
-	case 3:
-		palette = []string{"bug", "warning"}
-	default:
-		palette = sevNames
+	palette := sevNames[:capSev+1]
+	if scenario == 0 {
+		switch r.Intn(4) {
+		case 0:
+			palette = []string{"info", "warning"}
+		case 1:
+			palette = []string{"bug", "warning"}
+		}
 	}
 	sev := func() string { return palette[r.Intn(len(palette))] }
 	var cfg strings.Builder
 	cfg.WriteString("ci {\n  baseBranch = \"main\"\n}\n")
-	if r.Intn(3) == 0 {
+	if scenario != 0 || r.Intn(3) == 0 {
 		// silence the built-in offline checks so that only configured severities remain
-		cfg.WriteString("checks {\n  disabled = [\"alerts/comparison\", \"alerts/template\", \"promql/fragile\", \"promql/regexp\", \"alerts/for\", \"promql/impossible\"]\n}\n")
+		cfg.WriteString("checks {\n  disabled = [\"alerts/comparison\", \"alerts/template\", \"promql/fragile\", \"promql/regexp\", \"alerts/for\", \"promql/impossible\", \"promql/syntax\", \"rule/dependency\"]\n}\n")
 	}
 	match := func() string {
 		switch r.Intn(4) {
@@ -118,10 +129,18 @@ func c05RandBase(r *rand.Rand) c05Base {
 		cfg.WriteString("}\n")
 	}
 	// same check text at two severities on two paths (duplicate folding across severities)
-	if r.Intn(3) == 0 {
+	if scenario >= 4 || (scenario == 0 && r.Intn(3) == 0) {
 		s1, s2 := sev(), sev()
-		fmt.Fprintf(&cfg, "rule {\n  match {\n    path = \"rules/a.*\"\n  }\n  annotation \"zzz\" {\n    required = true\n    severity = \"%s\"\n  }\n}\n", s1)
-		fmt.Fprintf(&cfg, "rule {\n  match {\n    path = \"rules/b.*\"\n  }\n  annotation \"zzz\" {\n    required = true\n    severity = \"%s\"\n  }\n}\n", s2)
+		if scenario >= 4 {
+			s1 = sevNames[capSev]
+			s2 = sevNames[capSev+1+r.Intn(3-capSev)]
+			if scenario == 5 {
+				s1, s2 = s2, s1
+			}
+		}
+		kind := []string{"annotation", "label"}[r.Intn(2)]
+		fmt.Fprintf(&cfg, "rule {\n  match {\n    path = \"rules/a.*\"\n  }\n  %s \"zzz\" {\n    required = true\n    severity = \"%s\"\n  }\n}\n", kind, s1)
+		fmt.Fprintf(&cfg, "rule {\n  match {\n    path = \"rules/b.*\"\n  }\n  %s \"zzz\" {\n    required = true\n    severity = \"%s\"\n  }\n}\n", kind, s2)
 	}
 	b.Config = cfg.String()
 	return b
@@ -232,7 +251,7 @@ func runC05(c *core.Ctx) int {
 	var jobs []job
 	failOns := []string{"", "fatal", "bug", "warning", "info"}
 	for i := range bases {
-		bases[i] = c05RandBase(c.Rand("c05", i))
+		bases[i] = c05RandBase(c.Rand("c05", i), i%6)
 		for _, f := range failOns {
 			for _, ms := range sevNames {
 				for _, sd := range []bool{false, true} {
